@@ -160,4 +160,174 @@ theorem final_msecs (i : SInput) : ∀ s ∈ (finalC i).msecs, ∃ r, s = [(Call
       | stream =>
         intro s hs; rw [msecs_stream_nil i hf] at hs; cases hs
 
+/-! ## the clauses of the executable specification, on the model's trace -/
+
+theorem final_parse (i : SInput) : ∃ closed, Spec.C12.parse (modelC i).log = some closed
+    ∧ (∀ p ∈ closed, p.1 < i.workers.length + 1)
+    ∧ ownedBy 0 closed = (finalC i).msecs
+    ∧ ∀ w, w < i.workers.length →
+        ownedBy (w + 1) closed = if w < (finalC i).nsp then secsC i (finalC i).msecs (w + 1) else [] := by
+  obtain ⟨closed, hlog, hown, h0, hw⟩ := final_log i
+  refine ⟨closed, ?_, hown, h0, hw⟩
+  show Spec.C12.parse (finalC i).base.log = some closed
+  rw [hlog]; exact TTV.Props.C12.parse_flat closed
+
+theorem secsC_succ (i : SInput) (ms : List Section) (w : Nat) (wk : Worker) (hw : i.workers[w]? = some wk) :
+    secsC i ms (w + 1) = segSecs (progOf i w wk).segs := by
+  simp [secsC, hw]
+
+theorem c_oneAtATime (i : SInput) : cOneAtATime i (modelC i) = true := by
+  obtain ⟨closed, hp, hown, h0, hw⟩ := final_parse i
+  simp only [cOneAtATime, hp, List.all_eq_true]
+  intro p hpm
+  have h1 := TTV.Props.C12.mem_ownedBy hpm
+  obtain ⟨j, sec⟩ := p
+  cases j with
+  | zero =>
+    simp only at h1
+    rw [h0] at h1
+    obtain ⟨r, hr⟩ := final_msecs i _ h1
+    simp [hr, Spec.C12.shapeOk]
+  | succ w =>
+    have hwn : w < i.workers.length := by have := hown _ hpm; simp at this; omega
+    simp only at h1
+    rw [hw w hwn] at h1
+    split at h1
+    · have hwk : i.workers[w]? = some i.workers[w] := by simp [hwn]
+      rw [secsC_succ i _ w _ hwk] at h1
+      exact progOf_secs_shape i w _ sec h1
+    · cases h1
+
+theorem final_result_some (i : SInput) : (finalC i).result.isSome = true :=
+  (RInv_final i).r_done.mp (final_done i).1
+
+theorem c_terminates (i : SInput) : cTerminates i (modelC i) = true := by
+  simp only [cTerminates, Bool.and_eq_true]
+  exact ⟨finalC_finished i, final_result_some i⟩
+
+theorem c_complete (i : SInput) : cComplete i (modelC i) = true := by
+  unfold cComplete
+  by_cases hres : (finalC i).result = some .returned
+  · have hr := RInv_final i
+    obtain ⟨hreg, hnsp, hlive⟩ := hr.r_returned hres
+    have hcl := hr.r_clean (by simp [(final_done i).1]) (Or.inr hres)
+    have h1 : (modelC i).spawned = List.range (nWorkers i) := by simp [modelC, traceOf, hnsp, nWorkers]
+    have h2 : (modelC i).liveAtReturn = [] := hlive
+    have h3 : (modelC i).runs = (List.range (nWorkers i)).map (fun _ => 1) := by
+      simp only [modelC, traceOf, nWorkers]
+      apply List.map_congr_left
+      intro w hw
+      have := List.mem_range.mp hw
+      simp [hnsp, this]
+    have h4 : ((modelC i).sink.all fun p => !p.2.2) = true := by
+      simp only [modelC, traceOf, List.all_map, List.all_eq_true]
+      intro p hp
+      simp [hcl.2.2 p hp]
+    simp [h1, h2, h3, h4]
+  · have : ((modelC i).result != some .returned) = true := by
+      simp only [modelC, traceOf]
+      simpa using hres
+    simp [this]
+
+theorem range_contains (n w : Nat) : (List.range n).contains w = decide (w < n) := by
+  by_cases h : w < n
+  · simp [h]
+  · simp [h]
+
+theorem sinkOf_model (i : SInput) (w : Nat) : Spec.C13.sinkOf w (modelC i) = Conc.sinkOf w (finalC i).sink := by
+  simp only [Spec.C13.sinkOf, Conc.sinkOf, modelC, traceOf, List.filter_map, List.map_map]
+  rfl
+
+theorem statusesOf_map_status (l : List SEv) : statusesOf (l.map Item.status) = l := by
+  induction l with
+  | nil => rfl
+  | cons a l ih => simp [statusesOf] at ih ⊢; exact ih
+
+theorem eventsOf_stream (i : SInput) (hf : i.flavour = .stream) (w : Nat) : eventsOf i w = wEvents i w := by
+  unfold eventsOf wEvents workerAt
+  cases hw : i.workers[w]? with
+  | none => rfl
+  | some wk =>
+    simp only [progOf, hf]
+    rw [items_stream]
+    have : statusesOf (Item.startRun w :: ((streamEvents w i.tb wk).map Item.status ++ [Item.stopRun w]))
+        = statusesOf ((streamEvents w i.tb wk).map Item.status) := by
+      simp [statusesOf]
+    rw [this, statusesOf_map_status]
+
+theorem final_sink_acct (i : SInput) (w : Nat) (hw : w < i.workers.length) :
+    Conc.sinkOf w (finalC i).sink ++ statusesOf (todoItems (finalC i) w) = eventsOf i w := by
+  have := (SInv_final i).acct w hw
+  rw [hand_nil (by simp [(final_done i).1])] at this
+  simpa using this
+
+theorem c_delivered (i : SInput) : cDelivered i (modelC i) = true := by
+  unfold cDelivered
+  cases hf : i.flavour with
+  | suite =>
+    obtain ⟨closed, hp, hown, h0, hw⟩ := final_parse i
+    simp only [hp, Bool.and_eq_true, List.all_eq_true, decide_eq_true_eq, List.mem_range, beq_iff_eq]
+    refine ⟨⟨?_, ?_⟩, ?_⟩
+    · intro p hpm; have := hown p hpm; simp only [nWorkers]; omega
+    · intro s hs
+      rw [TTV.Props.C12.secsOf_eq_ownedBy, h0] at hs
+      obtain ⟨r, hr⟩ := final_msecs i s hs
+      simp [hr, isStopSec]
+    · intro w hwn
+      simp only [nWorkers] at hwn
+      rw [TTV.Props.C12.secsOf_eq_ownedBy, hw w hwn]
+      have hsp : (modelC i).spawned.contains w = decide (w < (finalC i).nsp) := by
+        simp only [modelC, traceOf]; exact range_contains _ _
+      rw [hsp]
+      by_cases hlt : w < (finalC i).nsp
+      · have hwk : i.workers[w]? = some i.workers[w] := by simp [hwn]
+        simp only [hlt, if_true, decide_true]
+        rw [secsC_succ i _ w _ hwk]
+        simp [wSecs, workerAt, hwk, progOf, hf]
+      · simp [hlt]
+  | stream =>
+    have hs := SInv_final i
+    have hq := QInv_final i
+    have hr := RInv_final i
+    simp only [Bool.and_eq_true, List.all_eq_true, List.mem_range]
+    refine ⟨?_, ?_⟩
+    · intro p hp
+      simp only [modelC, traceOf, List.mem_map] at hp
+      obtain ⟨p', hp', rfl⟩ := hp
+      have h1 := hs.sink_owner p' hp'
+      have h2 := nsp_le_n i
+      have : p'.1.w < i.workers.length := by omega
+      simp [nWorkers, this]
+    · intro w hwn
+      simp only [nWorkers] at hwn
+      rw [sinkOf_model, ← eventsOf_stream i hf]
+      have hacct := final_sink_acct i w hwn
+      refine ⟨⟨?_, ?_⟩, ?_⟩
+      · rw [List.isPrefixOf_iff_prefix]
+        exact ⟨_, hacct⟩
+      · have hsp : (modelC i).spawned.contains w = decide (w < (finalC i).nsp) := by
+          simp only [modelC, traceOf]; exact range_contains _ _
+        rw [hsp]
+        by_cases hlt : w < (finalC i).nsp
+        · simp [hlt]
+        · have : Conc.sinkOf w (finalC i).sink = [] := by
+            simp only [Conc.sinkOf, List.map_eq_nil_iff, List.filter_eq_nil_iff]
+            intro p hp
+            have := hs.sink_owner p hp
+            simp only [beq_iff_eq]; omega
+          simp [this]
+      · by_cases hres : (finalC i).result = some .returned
+        · obtain ⟨hreg, hnsp, _⟩ := hr.r_returned hres
+          have htodo : todoItems (finalC i) w = [] := by
+            by_cases hc : todoItems (finalC i) w = []
+            · exact hc
+            · have := (hq.reg_iff w).mpr ⟨by omega, hc⟩
+              rw [hreg] at this; cases this
+          rw [htodo] at hacct
+          simp only [statusesOf, List.filterMap_nil, List.append_nil] at hacct
+          simp [hacct]
+        · have : ((modelC i).result != some .returned) = true := by
+            simp only [modelC, traceOf]; simpa using hres
+          simp [this]
+
 end TTV.Props.C13
